@@ -1364,7 +1364,9 @@ package goatlang
 //@   invariant v.frame == old(v.frame) && v.stack == old(v.stack) && v.globals == old(v.globals) && len(v.backtrace) == old(len(v.backtrace))
 //@   invariant forall q int :: 0 <= q && q < len(v.stack) ==> v.stack[q] == old(v.stack[q])
 //@ func (*VM).exec case codeAppend
-//@   property C07 C11
+//@   property C07 C11 C13
+//@   -- a string spread into append is spread as its bytes: it goes through convert(TypeSlice)
+//@   ensures#bytes @C13 int(old(ins(v)).B) == 1 && old(top(v, 0)).t.base() == TypeString ==> calls("(Value).convert") == 1
 //@   assert#spread @4 len(v.stack) == old(len(v.stack)) - int(old(ins(v)).A) + 1 && v.frame == old(v.frame) && v.globals == old(v.globals) && (forall j int :: 0 <= j && j < len(v.stack) - 1 ==> v.stack[j] == old(v.stack[j]))
 //@   requires int(ins(v).A) >= 1 && need(v, int(ins(v).A)) && validStack(v)
 //@   ensures#delta len(v.stack) == old(len(v.stack)) - int(old(ins(v)).A) + 1
